@@ -11,10 +11,10 @@ Proof.
 Qed.
 
 Theorem submit_ok_means_stored sch i : ok (submit_f sch i) = true -> handed (submit_f sch i) = 1.
-Proof. unfold submit_f. cbn [ok handed]. destruct (sch (S i)); [discriminate|reflexivity]. Qed.
+Proof. unfold submit_f. destruct (sch i); [discriminate|]. cbn [ok handed]. destruct (sch (S i)); [discriminate|reflexivity]. Qed.
 
 Theorem make_ok_means_stored sch i current : ok (make_f sch i current) = true -> handed (make_f sch i current) = 1.
-Proof. unfold make_f. destruct current; cbn [ok handed]; [|discriminate]. destruct (sch (S i)); [discriminate|reflexivity]. Qed.
+Proof. unfold make_f. destruct (sch i); [discriminate|]. destruct current; cbn [ok handed]; [|discriminate]. destruct (sch (S i)); [discriminate|reflexivity]. Qed.
 
 Theorem save_ok_means_all_stored sch i hp : ok (save_f sch i hp) = true ->
   handed (save_f sch i hp) = if hp then 4 else 3.
@@ -67,8 +67,13 @@ Proof.
   destruct (sch i); cbn [ok negb andb]; [reflexivity|apply IH].
 Qed.
 
-(** the read side is NOT covered (known finding): a failed Get in a check-in is treated as "no
-    record yet" and the check-in still reports success *)
-Lemma read_fault_in_checkin_not_reported :
-  exists sch i, sch i = true /\ ok (submit_f sch i) = true.
-Proof. exists (fun n => Nat.eqb n 0), 0. split; reflexivity. Qed.
+(** the read side (with the repair): a failed read of the traveller record is reported by a check-in
+    and by Make, and so is a failed write after a successful read *)
+Theorem checkin_fault_reported sch i : sch i = true \/ sch (S i) = true -> ok (submit_f sch i) = false.
+Proof. unfold submit_f. intros [H|H]; [rewrite H; reflexivity|]. destruct (sch i); [reflexivity|]. cbn [ok]. rewrite H. reflexivity. Qed.
+
+Theorem make_fault_reported sch i current : sch i = true \/ sch (S i) = true -> ok (make_f sch i current) = false.
+Proof.
+  unfold make_f. intros [H|H]; [rewrite H; reflexivity|]. destruct (sch i); [reflexivity|].
+  destruct current; [|reflexivity]. cbn [ok]. rewrite H. reflexivity.
+Qed.
